@@ -147,7 +147,9 @@ func (p *DefaultOpcodeParser) Parse(s *bscript.Script) (ParsedScript, error) {
 		}
 
 		switch parsedOp.op.val {
-		case bscript.OpIF, bscript.OpNOTIF, bscript.OpVERIF, bscript.OpVERNOTIF:
+		case bscript.OpIF, bscript.OpNOTIF:
+			// OP_VERIF and OP_VERNOTIF are reserved words: they never open a
+			// conditional block (there is no matching OP_ENDIF to close it).
 			conditionalBlock++
 		case bscript.OpENDIF:
 			conditionalBlock--
